@@ -54,6 +54,18 @@ P = {
  "C14": (True, "exploration", "runtime monitoring: metamorphic oracle - every re-spelling (whitespace at each token boundary, quotes, trailing commas, trim markers) must render the same bytes, error kind and callback log as the canonical spelling",
          "One template per tag kind and expression form (41), each at 5 placements; exhaustive single-boundary sweep x 7 whitespace strings, pairwise sweeps, uniform and combined variants; random programs x random re-spellings.",
          "Tokens are the generator's; whitespace may be empty only where tokens cannot merge (gen.CanAbut).", "DESIGN.md#c14"),
+ "C17": (True, "fault_enumeration", "runtime monitoring with fault injection: recording fault writer (fails at the k-th Write, whole or half) and fault loader (k-th Load: error or broken source), failing constructs with recorded marker calls; differential against the fault-free run",
+         "Every fault point of every template of the set: writer at each k=1..W (two modes), loader at each k=1..L (two modes, Execute and ExecuteSafe), a failing construct at each node boundary of generated programs; oracles: non-nil error, accepted bytes are a prefix, no Write after a failed Write, ExecuteSafe writes nothing on failure and equals Execute on success.",
+         "Template set = 22 hand-written + 300 (quick) / 3000 (thorough) generated programs; a writer fault in ExecuteSafe must be reported but may leave partial output.", "DESIGN.md#c17"),
+ "C18": (True, "exploration", "Go race detector (-race workers, halt_on_error=0, logs parsed and deduplicated by the driver) plus differential monitor: every concurrent result equals the sequential result on a fresh environment; yield-injecting traverse hook and interleaving fingerprints in plain workers",
+         "Rounds of N in {2,4,16,64} goroutines x GOMAXPROCS {1,2,16} doing mixed Execute/Parse on one shared Twig and one shared core environment over 26 templates of mixed content types; half the rounds under the race detector with a bare-Gosched hook, half in the plain build with seeded yields and an event log.",
+         "Only the schedules the Go scheduler plus the yield hook produce; harness callbacks are pure.", "DESIGN.md#c18"),
+ "C19": (True, "exploration", "runtime monitoring: goroutine census (runtime.Stack(all)), live-tokeniser gauge from the verif hook and /proc/self/fd census after every call of a history, GC disabled",
+         "Every corpus template with a syntax error injected at every (quick: every third) fragment boundary through string/memory/filesystem loaders, plus seeded histories of up to 50/200 calls mixing valid templates, tokeniser/parser failures, broken includes/extends/imports, run-time failures and missing files.",
+         "A goroutine present after 200 yield+1ms rounds is blocked (leaked tokenisers block on a channel nobody drains).", "DESIGN.md#c19"),
+ "C20": (True, "exploration", "runtime monitoring: self-identifying anchors recorded by the speller vs positions reported by the parsed tree; reference scanner for truncations; injected tokens located by content; named-template errors",
+         "Positions on 8k/300k multi-line templates; every truncation offset of the injection and generated templates; '@' at every token boundary, a surplus literal before every closing delimiter and an unknown tag at every statement position of 41 templates x 3 placements; broken named templates through 8 loading paths.",
+         "Comments, filters, attribute and operator expressions are not anchors named by the statement; injections inside endverbatim excluded.", "DESIGN.md#c20"),
 }
 NOT_BUILT_REASON = "check not built yet in this round (planned: see DESIGN.md section for this property)"
 
